@@ -430,3 +430,7 @@ impl<T: ?Sized + Trace + Debug> Debug for Weak<T> {
         write!(f, "(Weak)")
     }
 }
+
+#[cfg(kani)]
+#[path = "/verif/kani/weak_proofs.rs"]
+pub(crate) mod verif_proofs; // verification hook (H2): specs and contract harnesses live in /verif
